@@ -209,7 +209,19 @@ def window_pred(tmin, tmax):
 
 
 # --------------------------------------------------------------------------- worker
+from ..xcheck import XCheck
+
+XC = XCheck()
+
+
 def analyse(fmt, tier, seed, which):
+    XC.__init__(every=60 if tier == "thorough" else 150, first=1, cap=12 if tier == "thorough" else 3)
+    res = _analyse_fmt(fmt, tier, seed, which)
+    res["xcheck"] = XC.summary()
+    return res
+
+
+def _analyse_fmt(fmt, tier, seed, which):
     res = {"fmt": fmt, "n": 0, "ok": 0, "unknown": [], "viol": [], "samples": [], "errors": [], "notes": [], "solver_s": 0.0, "replays": 0, "programs": 0, "canary": [0, 0], "functions": []}
     try:
         _analyse(fmt, tier, seed, which, res)
@@ -303,6 +315,7 @@ def _analyse(fmt, tier, seed, which, res):
                 kk = R(k) if k is not None else kin
                 q = z3.And(kk != R(ref), kk != kin)
                 rr = str(s.check(q))
+                XC.sample(s, [q], rr, name)
                 if rr == "unsat":
                     res["ok"] += 1
                     if len(res["samples"]) < 3:
@@ -326,6 +339,7 @@ def _analyse(fmt, tier, seed, which, res):
                 if fmt == "uclchem" and False:
                     pass
                 rr = str(s.check(assigned != win))
+                XC.sample(s, [assigned != win], rr, name)
                 if rr == "unsat":
                     res["ok"] += 1
                     if len(res["samples"]) < 3:
@@ -469,6 +483,7 @@ def main(pid, tier):
         chk.solver_s += r["solver_s"]
         chk.replays_done += r["replays"]
         chk.functions.update(r["functions"])
+        chk.xc.merge(r.get("xcheck"))
         chk.obligations += r["ok"]
         chk.discharged += r["ok"]
         if r["ok"]:
